@@ -51,9 +51,9 @@ def ops(tier: str) -> List[tuple]:
             kw = {"on_ms": on, "off_ms": off, "times": times}
             out.append(_op("beep", *([] if f is None else [f]), **kw))
     out.append(_op("beep"))
-    for s, e in ((200, 800), (800, 200), (500, 500), (0, 300), (-10, 50), (100.5, 101.5)):
-        for d, steps in ((100, 10), (0, 5), (20, 12), (100, 8), (50, 1), (30, 0), (30, -1), (255, 10)):
-            if (s, e) in ((500, 500), (-10, 50), (100.5, 101.5)) and steps not in (10, 1, 0):
+    for s, e in ((200, 800), (800, 200), (500, 500), (0, 300), (-10, 50), (100.5, 101.5), (400, 0), (300, -20)):
+        for d, steps in ((100, 10), (0, 5), (20, 12), (100, 8), (50, 1), (30, 0), (30, -1), (255, 10), (4, 10), (2.5, 7)):
+            if (s, e) in ((500, 500), (-10, 50), (100.5, 101.5), (300, -20)) and steps not in (10, 1, 0):
                 continue
             out.append(_op("sweep", s, e, duration_ms=d, steps=steps))
     for name in MELODIES:
@@ -111,6 +111,43 @@ def build_rebind(seq: Sequence[int], all_ops, same_pin: bool) -> dict:
         recvs.append("bz" if k == 0 else ("b3" if same_pin else "b4"))
         lines += [f'mon.write("call {k}")', render(all_ops[idx], "lit", [], [], "bz")] + GETTERS
     return {"id": f"rebind:{same_pin}:{tuple(seq)}", "src": common.script(lines, prologue=PRO), "runs": [{"passes": 0}], "ops": [all_ops[i] for i in seq], "recvs": recvs, "placement": "setup"}
+
+
+def build_order(op, placement: str) -> dict:
+    """Every numeric argument is `nxt()`, a helper that returns 100, 200, 300, ... : Python evaluates the arguments
+    left to right in source order, so the k-th argument as written receives k * 100."""
+    name, args, kwargs = op
+    counter = [0]
+
+    def nxt():
+        counter[0] += 100
+        return counter[0]
+
+    new_args = [nxt() if isinstance(a, (int, float)) and not isinstance(a, bool) else a for a in args]
+    new_kwargs = {k: (nxt() if isinstance(v, (int, float)) and not isinstance(v, bool) and k not in ("times", "steps") else v) for k, v in kwargs.items()}
+    parts = ["nxt()" if isinstance(a, (int, float)) and not isinstance(a, bool) else json.dumps(a) for a in args]
+    parts += [f"{k}=" + ("nxt()" if isinstance(v, (int, float)) and not isinstance(v, bool) and k not in ("times", "steps") else (json.dumps(v) if isinstance(v, str) else repr(v))) for k, v in kwargs.items()]
+    defs = ["cur = 0", "def nxt():", "    global cur", "    cur = cur + 100", "    return cur"]
+    lines = ['mon.write("call 0")', f"bz.{name}({', '.join(parts)})"] + GETTERS
+    expected = (name, new_args, new_kwargs)
+    if placement == "setup":
+        src = common.script(defs + ["bz = Buzzer(8)"] + lines, prologue=PRO)
+        return {"id": f"order:{placement}:{name}:{len(args)}:{sorted(kwargs)}", "src": src, "runs": [{"passes": 0}], "ops": [expected], "placement": "setup"}
+    src = common.script(defs + ["bz = Buzzer(8)"], lines, prologue=PRO)
+    second = _shift(expected, counter[0])
+    return {"id": f"order:{placement}:{name}:{len(args)}:{sorted(kwargs)}", "src": src, "runs": [{"passes": 2}], "ops": [expected], "ops_by_pass": [[expected], [second]], "placement": "loop"}
+
+
+def _shift(op, by):
+    name, args, kwargs = op
+    sh = lambda x, k=None: x + by if isinstance(x, (int, float)) and not isinstance(x, bool) and k not in ("times", "steps") and x % 100 == 0 and x > 0 else x
+    return (name, [sh(a) for a in args], {k: sh(v, k) for k, v in kwargs.items()})
+
+
+# (keywords written in another order than the signature's are evaluated in signature order by the firmware: recorded
+#  as KF-C16-keyword-evaluation-order, witness only)
+ORDER_OPS = [("play_tone", [1, 1], {}), ("play_tone", [1], {"duration_ms": 1}), ("beep", [1], {"on_ms": 1, "off_ms": 1, "times": 2}),
+             ("sweep", [1, 1], {"duration_ms": 1, "steps": 3}), ("melody", ["error"], {"tempo": 1}), ("melody", ["notify"], {"tempo": 1})]
 
 
 def build(seq: Sequence[int], all_ops, mode: str, placement: str) -> Optional[dict]:
@@ -173,6 +210,9 @@ def generate(tier: str, only=None) -> Iterator[dict]:
     if tier == "thorough":
         seqs += list(itertools.product(range(n), repeat=2))
         seqs += list(itertools.product(core, repeat=3))
+    for op in ORDER_OPS:
+        for placement in ("setup", "loop"):
+            yield build_order(op, placement)
     small = core[:8]
     for seq in itertools.product(small, repeat=3):
         yield build_two(seq, ("bz", "b2", "bz"), all_ops)
@@ -312,7 +352,8 @@ def check_call(op, events: List[tuple], getters: List[str], st: dict) -> Optiona
                 return f"sweep ends on {got[-1]}, end frequency {e}"
             if n > 1 and s > 0 and got[0] != _round_tone(s):
                 return f"sweep starts on {got[0]}, start frequency {s}"
-            st["last"] = float(want[-1]) if want[-1] > 0 else st["last"]
+            sounded = [w for w in want if w > 0]
+            st["last"] = float(sounded[-1]) if sounded else st["last"]  # the tone last SOUNDED (a sweep may end on silence)
         if total_delay > int(dur):
             return f"sweep waited {total_delay} ms > duration {dur}"
         err = silent_end()
